@@ -57,7 +57,9 @@ func c12ImplReply(text []byte, err error) string {
 }
 
 // c12EmitRows writes the rows of one schema set.
-func c12EmitRows(out *bufio.Writer, id string, schemas ast.Schemas, stats map[string]int) {
+// loaders: also hand the documents to the independent loaders (only for IR a front-end can produce:
+// the random IR has duplicate enum values, self-aliases, … which the loaders rightly refuse).
+func c12EmitRows(out *bufio.Writer, id string, schemas ast.Schemas, stats map[string]int, loaders bool) {
 	fmt.Fprintf(out, "defschemas %s %s\tok\tok\n", id, virSchemas(schemas))
 	anyCyclic := false
 	for _, s := range schemas {
@@ -90,7 +92,7 @@ func c12EmitRows(out *bufio.Writer, id string, schemas ast.Schemas, stats map[st
 		text, err := c12EmitJSONSchema(schemas, s)
 		verdict := "ok"
 		if err == nil {
-			verdict = c12VerdictJSONSchema(schemas, s, text)
+			verdict = c12VerdictJSONSchema(schemas, s, text, loaders)
 		} else {
 			verdict = "FAIL emitter-error " + shortErr(err)
 		}
@@ -110,7 +112,7 @@ func c12EmitRows(out *bufio.Writer, id string, schemas ast.Schemas, stats map[st
 			if oaErr != nil {
 				fmt.Fprintf(out, "jsemit %s %s oa\t%s\tFAIL emitter-error %s\n", id, s.Package, c12ImplReply(nil, oaErr), shortErr(oaErr))
 			} else if t, ok := oaFiles[s.Package]; ok {
-				fmt.Fprintf(out, "jsemit %s %s oa\tok %s\t%s\n", id, s.Package, c12Compact(t), c12VerdictOpenAPI(schemas, s, t))
+				fmt.Fprintf(out, "jsemit %s %s oa\tok %s\t%s\n", id, s.Package, c12Compact(t), c12VerdictOpenAPI(schemas, s, t, loaders))
 			}
 		}
 	}
@@ -123,13 +125,14 @@ func init() {
 		o := defaultIRGenOpts(args["tier"])
 		o.maxPkgs = 3
 		stats := map[string]int{}
-		for i := 0; i < n; i++ {
+		from := argInt(args, "from", 0)
+		for i := from; i < from+n; i++ {
 			oi := o
 			if args["malformed"] == "1" && i%4 == 3 {
 				oi.malformed = true
 			}
 			schemas := genSchemas(newRng(seed*1000003+uint64(i)), oi)
-			c12EmitRows(out, fmt.Sprintf("i%d", i), schemas, stats)
+			c12EmitRows(out, fmt.Sprintf("i%d", i), schemas, stats, false)
 		}
 		fmt.Fprintf(out, "-\tstats %v\tok\n", stats)
 		return nil
@@ -230,6 +233,57 @@ func c12PinnedSets() []c12Pinned {
 			values: []string{`{"v":"text"}`, `{"v":{"k":1}}`},
 		},
 		{
+			id: "oa-enum", what: "OpenAPI output: an enum is emitted without `type`; cog's own OpenAPI front-end panics on it",
+			pkg: "a", root: "Root",
+			schemas: ast.Schemas{
+				c12Schema("a", "Root",
+					c12Obj("a", "Root", ast.NewStruct(c12Field("e", ast.NewRef("a", "E"), true))),
+					c12Obj("a", "E", ast.NewEnum([]ast.EnumValue{{Name: "x", Type: str, Value: "x"}, {Name: "y", Type: str, Value: "y"}}))),
+			},
+			values: []string{`{"e":"x"}`},
+		},
+		{
+			id: "oa-exclusive", what: "OpenAPI output: exclusive bounds are written as numbers (JSON Schema draft-07 form); OpenAPI 3.0 wants booleans",
+			pkg: "a", root: "Root",
+			schemas: ast.Schemas{
+				c12Schema("a", "Root", c12Obj("a", "Root", ast.NewStruct(c12Field("n", func() ast.Type {
+					t := ast.NewScalar(ast.KindInt64)
+					t.Scalar.Constraints = []ast.TypeConstraint{{Op: ast.GreaterThanOp, Args: []any{int64(0)}}, {Op: ast.LessThanOp, Args: []any{int64(10)}}}
+					return t
+				}(), true)))),
+			},
+			values: []string{`{"n":5}`},
+		},
+		{
+			id: "oa-nulltype", what: "OpenAPI output: `type: null` is not an OpenAPI 3.0 type",
+			pkg: "a", root: "Root",
+			schemas: ast.Schemas{
+				c12Schema("a", "Root", c12Obj("a", "Root", ast.NewStruct(c12Field("z", ast.NewScalar(ast.KindNull), false)))),
+			},
+			values: []string{`{}`},
+		},
+		{
+			id: "oa-refsibling", what: "OpenAPI output: a commented alias is a component `{$ref, description}`: extra sibling fields",
+			pkg: "a", root: "Root",
+			schemas: ast.Schemas{
+				c12Schema("a", "Root",
+					c12Obj("a", "Root", ast.NewStruct(
+						func() ast.StructField {
+							f := c12Field("t", ast.NewRef("a", "T"), true)
+							f.Comments = []string{"the T"}
+							return f
+						}(),
+						c12Field("u", ast.NewRef("a", "T", ast.Default(map[string]any{"p": "d"})), false))),
+					func() ast.Object {
+						o := c12Obj("a", "Alias", ast.NewRef("a", "T"))
+						o.Comments = []string{"an alias with a comment"}
+						return o
+					}(),
+					c12Obj("a", "T", ast.NewStruct(c12Field("p", str, true)))),
+			},
+			values: []string{`{"t":{"p":"s"}}`},
+		},
+		{
 			id: "requirednullable", what: "nullability is not represented: a required nullable member encodes `null`",
 			pkg: "a", root: "Root",
 			schemas: ast.Schemas{
@@ -261,7 +315,7 @@ func init() {
 			}
 			id := "pin-" + p.id
 			fmt.Fprintf(out, "-\tpinned %s %s\tok\n", p.id, p.what)
-			c12EmitRows(out, id, p.schemas, stats)
+			c12EmitRows(out, id, p.schemas, stats, true)
 			s := c12FindSchema(p.schemas, p.pkg)
 			if s == nil || c12ForeignObjects(p.schemas, s).cyclic {
 				continue
@@ -281,7 +335,7 @@ func init() {
 					impl = "invalid"
 					verdict = fmt.Sprintf("FAIL encoded-value-rejected format=ir src=%s %s case=%s", p.id, c12Explain(verr, emitted, doc), id)
 				}
-				fmt.Fprintf(out, "jsvalid %s %s %s %s\t%s\t%s\n", id, p.pkg, p.root, doc.sexp(), impl, verdict)
+				fmt.Fprintf(out, "jsvalid %s %s %s %s\t%s\t%s\t%s\n", id, p.pkg, p.root, doc.sexp(), impl, verdict, doc.json())
 			}
 		}
 		return nil
